@@ -1464,6 +1464,7 @@ func buildFromStringProto(src protoreflect.FieldDescriptor, ext protoFieldExtens
 				ForeignKey: psmKeyExt.ForeignKey,
 			}
 		}
+		ee.TenantKey = psmKeyExt.TenantType
 		keyField.Entity = ee
 	}
 
